@@ -1,6 +1,7 @@
 from __future__ import division, print_function
 import numpy as np
 from bct.utils import BCTParamError, normalize, get_rng
+from bct.utils.miscellaneous_utilities import _VERIF, _verif_emit
 from ..due import BibTeX, due
 from ..citations import (
     LEICHT2008, REICHARDT2006, GOOD2010, SUN2008, RUBINOV2011,
@@ -206,6 +207,8 @@ def community_louvain(W, gamma=1, ci=None, B='modularity', seed=None):
                     Hm[ma] -= H[u]  # change module strengths
 
                     Mb[u] = mb + 1
+                    if _VERIF:
+                        _verif_emit('move', fn='community_louvain', u=u, ma=ma, mb=mb, gain=max_dq, labels=Mb)
 
         _, Mb = np.unique(Mb, return_inverse=True)
         Mb += 1
@@ -236,6 +239,8 @@ def community_louvain(W, gamma=1, ci=None, B='modularity', seed=None):
         q0 = q
 
         q = np.trace(B)  # compute modularity
+        if _VERIF:
+            _verif_emit('level', fn='community_louvain', ci=ci, q=q)
     
     # Workaround to normalize
     if not renormalize:
@@ -673,6 +678,8 @@ def modularity_finetune_dir(W, ci=None, gamma=1, seed=None):
                 km_i[ma] -= k_i[u]
 
                 ci[u] = mb + 1  # reassign module
+                if _VERIF:
+                    _verif_emit('move', fn='modularity_finetune_dir', u=u, ma=ma, mb=mb, gain=max_dq, labels=ci)
                 flag = True
 
     _, ci = np.unique(ci, return_inverse=True)
@@ -771,6 +778,8 @@ def modularity_finetune_und(W, ci=None, gamma=1, seed=None):
                 km[ma] -= k[u]
 
                 ci[u] = mb + 1
+                if _VERIF:
+                    _verif_emit('move', fn='modularity_finetune_und', u=u, ma=ma, mb=mb, gain=max_dq, labels=ci)
                 flag = True
 
     _, ci = np.unique(ci, return_inverse=True)
@@ -905,6 +914,8 @@ def modularity_finetune_und_sign(W, qtype='sta', gamma=1, ci=None, seed=None):
                 # print h,max_dq,mb,u
                 flag = True
                 ci[u] = mb + 1  # reassign module
+                if _VERIF:
+                    _verif_emit('move', fn='modularity_finetune_und_sign', u=u, ma=ma, mb=mb, gain=max_dq, labels=ci)
 
                 Knm0[:, mb] += W0[:, u]
                 Knm0[:, ma] -= W0[:, u]
@@ -1025,6 +1036,8 @@ def modularity_louvain_dir(W, gamma=1, hierarchy=False, seed=None):
                     km_i[ma] -= k_i[u]
 
                     m[u] = mb + 1  # reassign module
+                    if _VERIF:
+                        _verif_emit('move', fn='modularity_louvain_dir', u=u, ma=ma, mb=mb, gain=max_dq, labels=m)
                     flag = True
 
         _, m = np.unique(m, return_inverse=True)
@@ -1046,6 +1059,8 @@ def modularity_louvain_dir(W, gamma=1, hierarchy=False, seed=None):
         q.append(0)
         # compute modularity
         q[h] = np.trace(W1) / s - gamma * np.sum(np.dot(W1 / s, W1 / s))
+        if _VERIF:
+            _verif_emit('level', fn='modularity_louvain_dir', ci=ci[h], q=q[h])
         if q[h] - q[h - 1] < 1e-10:  # if modularity does not increase
             break
 
@@ -1154,6 +1169,8 @@ def modularity_louvain_und(W, gamma=1, hierarchy=False, seed=None):
                     Km[ma] -= k[i]
 
                     m[i] = j + 1  # reassign module
+                    if _VERIF:
+                        _verif_emit('move', fn='modularity_louvain_und', u=i, ma=ma, mb=j, gain=max_dq, labels=m)
                     flag = True
 
         _, m = np.unique(m, return_inverse=True)  # new module assignments
@@ -1180,6 +1197,8 @@ def modularity_louvain_und(W, gamma=1, hierarchy=False, seed=None):
         q.append(0)
         # compute modularity
         q[h] = np.trace(W) / s - gamma * np.sum(np.dot(W / s, W / s))
+        if _VERIF:
+            _verif_emit('level', fn='modularity_louvain_und', ci=ci[h], q=q[h])
         if q[h] - q[h - 1] < 1e-10:  # if modularity does not increase
             break
 
@@ -1324,6 +1343,8 @@ def modularity_louvain_und_sign(W, gamma=1, qtype='sta', seed=None):
                     km1[ma] -= kn1[u]
 
                     m[u] = mb + 1  # reassign module
+                    if _VERIF:
+                        _verif_emit('move', fn='modularity_louvain_und_sign', u=u, ma=ma, mb=mb, gain=max_dQ, labels=m)
 
         h += 1
         ci.append(np.zeros((n,)))
@@ -1352,6 +1373,8 @@ def modularity_louvain_und_sign(W, gamma=1, qtype='sta', seed=None):
         q0 = np.trace(W0) - np.sum(np.dot(W0, W0)) / s0
         q1 = np.trace(W1) - np.sum(np.dot(W1, W1)) / s1
         q[h] = d0 * q0 - d1 * q1
+        if _VERIF:
+            _verif_emit('level', fn='modularity_louvain_und_sign', ci=ci[h], q=q[h])
 
     _, ci_ret = np.unique(ci[-1], return_inverse=True)
     ci_ret += 1
@@ -1476,6 +1499,8 @@ def modularity_probtune_und_sign(W, qtype='sta', gamma=1, ci=None, p=.45,
 
         if r or max_dq > 1e-10:
             ci[u] = mb + 1
+            if _VERIF:
+                _verif_emit('move', fn='modularity_probtune_und_sign', u=u, ma=ma, mb=mb, gain=(0 if r else max_dq), labels=ci, forced=bool(r))
 
             Knm0[:, mb] += W0[:, u]
             Knm0[:, ma] -= W0[:, u]
